@@ -326,6 +326,17 @@ def rule_first_wins(prog, rep):
                 (pol and isinstance(t.ops[0], ast.NotIn)) or (not pol and isinstance(t.ops[0], ast.In))) for t, pol in g)
             ok &= guarded
             detail.append(f"line {c.lineno}: {'guarded by <name> not in self.map' if guarded else 'UNGUARDED (a later altLoc overwrites the first)'}")
+            # the name tested must be the name filed: no renaming between the membership test and the add
+            for t, pol in g:
+                if isinstance(t, ast.Compare) and U(t.comparators[0]) == "self.map":
+                    tested = U(t.left)
+                    renamed = [s_ for s_ in iter_stmts(fn.body) if isinstance(s_, ast.Assign) and U(s_.targets[0]) == tested
+                               and t.lineno < s_.lineno <= c.lineno]
+                    if renamed:
+                        ok = False
+                        detail.append(f"line {renamed[0].lineno}: {tested} is changed AFTER the membership test at line {t.lineno} and before the atom is "
+                                      "filed: an atom listed under an alternative name is not recognised as a second alternate location and is "
+                                      "added twice")
         r.add(f"first-wins|{cname}", ok, "; ".join(detail), where)
     # add_atom itself must not reorder/replace silently: map[name] = atom and atoms.append
     # subclasses that override __init__ must delegate to one of the five (else they are a sixth constructor)
